@@ -93,8 +93,11 @@ Definition consistent_outcome (s : nat) : bool :=
   end.
 (* the outcome the handlers were chosen for is not directly visible: some outcome must explain both the handlers that
    ran and the final node table *)
+(* Schedule's error follows the steps, never the lifecycle handlers (runs without stop request / timeout) *)
+Definition run_error_ok : bool :=
+  if stop_requested || timed_out_run then true else Bool.eqb (d_err x) some_failed_final.
 Definition mon2_C04 : bool :=
-  no_step_after_handler false (d_trace x)
+  no_step_after_handler false (d_trace x) && run_error_ok
   && existsb (fun s => handlers_eqb (hstarted (d_trace x)) (filter honb (handler_for_status s ++ [HExit]))
                        && consistent_outcome s) [4; 2; 3].
 
